@@ -116,8 +116,11 @@ type Node struct {
 	RvInfo       [][]protocol.RvInstruction
 	AcceptTTL    func(ctx context.Context, ov fdo.Voucher, req uint32) (uint32, error)
 	MaxDevSISize uint16 // 0: unset
-	MaxContent   int64  // http.Handler.MaxContentLength (0: the library default of 65535)
-	VerifyOV     func(context.Context, fdo.Voucher) error
+	// MfgKeyOverride makes the DI responder use a manufacturer key of another
+	// type/size than the device's key type calls for.
+	MfgKeyOverride func(protocol.KeyType) (protocol.KeyType, int)
+	MaxContent     int64 // http.Handler.MaxContentLength (0: the library default of 65535)
+	VerifyOV       func(context.Context, fdo.Voucher) error
 
 	// WrapTO2 optionally wraps the TO2 responder (tunnel taps, rogue owner).
 	WrapTO2 func(protocol.Responder) protocol.Responder
@@ -148,20 +151,26 @@ func (n *Node) Rebuild() {
 				return "", protocol.PublicKey{}, fmt.Errorf("manufacturing info required")
 			}
 			bits := n.MfgBits
-			key, chain, err := st.ManufacturerKey(ctx, info.KeyType, bits)
+			mfgType := info.KeyType
+			if n.MfgKeyOverride != nil {
+				// a manufacturer that answers with a key of another family than
+				// the device asked for
+				mfgType, bits = n.MfgKeyOverride(info.KeyType)
+			}
+			key, chain, err := st.ManufacturerKey(ctx, mfgType, bits)
 			if err != nil {
 				return "", protocol.PublicKey{}, fmt.Errorf("manufacturer key: %w", err)
 			}
 			var pk *protocol.PublicKey
 			switch info.KeyEncoding {
 			case protocol.X5ChainKeyEnc:
-				pk, err = protocol.NewPublicKey(info.KeyType, chain, false)
+				pk, err = protocol.NewPublicKey(mfgType, chain, false)
 			case protocol.X509KeyEnc, protocol.CoseKeyEnc:
 				switch pub := key.Public().(type) {
 				case *ecdsa.PublicKey:
-					pk, err = protocol.NewPublicKey(info.KeyType, pub, info.KeyEncoding == protocol.CoseKeyEnc)
+					pk, err = protocol.NewPublicKey(mfgType, pub, info.KeyEncoding == protocol.CoseKeyEnc)
 				case *rsa.PublicKey:
-					pk, err = protocol.NewPublicKey(info.KeyType, pub, info.KeyEncoding == protocol.CoseKeyEnc)
+					pk, err = protocol.NewPublicKey(mfgType, pub, info.KeyEncoding == protocol.CoseKeyEnc)
 				}
 			default:
 				err = fmt.Errorf("unsupported key encoding %d", info.KeyEncoding)
@@ -287,6 +296,9 @@ type Device struct {
 	HmacFailSum int
 	HmacSums    int
 	HmacFaults  int
+	// NoHmac384: the device offers HMAC-SHA256 only (legal for P-256 and
+	// RSA-2048 devices): the SHA-384 engine handed to the library is nil.
+	NoHmac384 bool
 }
 
 func (w *World) NewDevice(name, role string, cfg KeyCfg) *Device {
@@ -298,7 +310,10 @@ func (w *World) NewDevice(name, role string, cfg KeyCfg) *Device {
 func (d *Device) HMACs() (hash.Hash, hash.Hash) {
 	h256, h384 := hmac.New(sha256.New, d.Secret), hmac.New(sha512.New384, d.Secret)
 	if d.HmacFailSum > 0 {
-		return &FlakyHash{Hash: h256, d: d}, &FlakyHash{Hash: h384, d: d}
+		h256, h384 = &FlakyHash{Hash: h256, d: d}, &FlakyHash{Hash: h384, d: d}
+	}
+	if d.NoHmac384 {
+		return h256, nil
 	}
 	return h256, h384
 }
